@@ -325,6 +325,13 @@ def run_case(ctx, case):
     elif rej == 'different-object-same-name':
       mod_, nm_ = full.rsplit('.', 1) if '.' in full else (None, full)
       tries = [lambda: gin.register(nm_, module=mod_)(other), lambda: gin.external_configurable(other, name=nm_, module=mod_)]
+
+      def known(x=0):
+        return ('known', x)
+      known.__name__ = 'known' + base
+      gin.register('known' + base, module='c13')(known)     # an object Gin already knows under another name ...
+      tries.append(lambda: gin.register(nm_, module=mod_)(known))   # ... is still a different object for this name
+      tries.append(lambda: gin.external_configurable(gin.get_configurable(known), name=nm_, module=mod_))
     elif rej == 'unknown-in-list':
       tries = [lambda: gin.register('ul' + base, module='c13', allowlist=['nope'])(other), lambda: gin.external_configurable(other, name='ul' + base, module='c13', denylist=['x', 'nope'])]
       # a class with a Gin-registered method: a refused class registration must not have renamed the method in the registry
@@ -374,6 +381,12 @@ def run_case(ctx, case):
       except ValueError:
         ctx.count('oracle_evals')
     must_fail('before interactive mode')
+    try:
+      gin.get_configurable('sc/ope/' + full)    # a scoped version exists before the name is re-registered
+      gin.parse_config('c13cons.v = @sc/ope/%s' % full)
+      _S['cons'].conf()
+    except Exception:  # pylint: disable=broad-except
+      pass
     if im == 'context-manager':
       with gin.config.interactive_mode():
         gin.register(nm_, module=mod_)(repl)
@@ -391,6 +404,13 @@ def run_case(ctx, case):
     gin.clear_config()
     ctx.check(gin.get_configurable(full)() == ('repl', 0), 'interactive-reregistration-not-effective',
               'after re-registration in interactive mode %s still resolves to the old object' % full)
+    ctx.check(gin.get_configurable('sc/ope/' + full)() == ('repl', 0), 'interactive-reregistration-not-effective',
+              'after re-registration in interactive mode the scoped selector sc/ope/%s still resolves to the old object' % full)
+    gin.parse_config('c13cons.v = @sc/ope/%s' % full)
+    _S['cons'].conf()
+    ctx.check(probes.RECORDER.log[-1].received['v']() == ('repl', 0), 'interactive-reregistration-not-effective',
+              'after re-registration a scoped reference to %s still delivers the old object' % full)
+    gin.clear_config()
 
     def repl2(x=0):
       return ('repl2', x)
